@@ -337,6 +337,14 @@ class FnSplicer:
             self._let_chain_first(body_open, body_close)
         if 'let-chain-nest' in (spec.get('rewrites') or []):
             self._let_chain_nest(body_open, body_close)
+        # `let-chain-nest?`: the same rule applied wherever its shape occurs, possibly nowhere (a contract that does not
+        # depend on the chain being there: if the function is restructured it is judged as it stands)
+        if 'let-chain-nest?' in (spec.get('rewrites') or []):
+            try:
+                self._let_chain_nest(body_open, body_close)
+            except ExtractError as e:
+                if 'lost anchor' not in str(e):
+                    raise
         if 'mut-self-to-local' in (spec.get('rewrites') or []):
             self._mut_self_to_local(kwi, pclose, body_open, body_close)
         # an annotation set can name statements it relies on; if one is missing the set does not apply (lost anchor)
